@@ -33,19 +33,23 @@ def sample : Scenario :=
 /-! ## Main theorem: every history of the model is accepted by the Spec -/
 
 /-- For all requests, stream behaviours and histories, the trace of the model satisfies the Spec
-(bytes, terminal, answers, close accounting, reads after close). -/
+(bytes, terminal, answers, no direct close once a probe took the body over, close accounting, reads
+after close, no read reaching the closed underlying stream). -/
 theorem model_meets_spec (g : Scenario) (ops : List Op) :
-    specTrace g ops (model g ops).1 (model g ops).2 = true := by
+    specTrace g ops (model g ops).1 (model g ops).2.1 (model g ops).2.2 = true := by
   unfold specTrace
   cases hok : okRuns g.sched with
   | false => rfl
   | true =>
-    have h := run_sim (g := g) ops g.req (sim_init g hok)
+    have h := run_init g hok ops
     have hc := sim_closes _ h.2
+    have hl := sim_late _ h.2
     show (!true || ((specGo g { rest := g.sData } ops (runOps g.req ops).1).1 &&
       specCloses g (specGo g { rest := g.sData } ops (runOps g.req ops).1).2
-        (reportedCloses g (runOps g.req ops).2))) = true
-    rw [h.1, hc]; rfl
+        (reportedCloses g (runOps g.req ops).2) &&
+      specLate g (specGo g { rest := g.sData } ops (runOps g.req ops).1).2
+        (reportedLate g (runOps g.req ops).2))) = true
+    rw [h.1, hc, hl]; rfl
 
 /-! ## The answer -/
 
@@ -83,21 +87,24 @@ theorem declared_characterisation (g : Scenario) (hwf : lenWF g = true) :
 probes all return the same value (no assumption on the length fields). -/
 theorem probes_agree (g : Scenario) (hok : okRuns g.sched = true) (ops : List Op) (m : Nat) :
     ∃ a, (runOps (runOps g.req ops).2 (List.replicate m .hasBody)).1 = List.replicate m (.has a) := by
-  have h := (run_sim (g := g) ops g.req (sim_init g hok)).2
+  have h := (run_init g hok ops).2
   generalize (specGo g { rest := g.sData } ops (runOps g.req ops).1).2 = t at h
   generalize (runOps g.req ops).2 = r at h
   refine ⟨modelAnswer g t, ?_⟩
-  induction m generalizing r with
-  | zero => rfl
+  -- a probe changes nothing in the tracker that the answer depends on
+  suffices H : ∀ (t' : Track) (r : Req), Sim g t' r → modelAnswer g t' = modelAnswer g t →
+      (runOps r (List.replicate m .hasBody)).1 = List.replicate m (.has (modelAnswer g t)) from
+    H t r h rfl
+  induction m with
+  | zero => intro _ _ _ _; rfl
   | succ m ih =>
+    intro t' r h ha
     rw [List.replicate_succ, runOps_cons, List.replicate_succ]
     have hv := has_value r h
     have hs := (step_has r h).2
-    have : (specStep g t .hasBody (step r .hasBody).1).2 = t := rfl
-    rw [this] at hs
-    rw [ih _ hs]
+    rw [ih _ _ hs ha]
     show Out.has (hasBody r).1 :: _ = _
-    rw [hv]
+    rw [hv, ha]
 
 example : okRuns sample.sched = true := by decide
 
@@ -112,7 +119,7 @@ theorem integrity (g : Scenario) (hok : okRuns g.sched = true) (hsrc : g.kind = 
     (ops : List Op) (hnc : ∀ op ∈ ops, op ≠ .close) (k : Nat) (hk : 0 < k) :
     ∃ d, (model g (ops ++ [.drain k])).1 = (model g ops).1 ++ [.dr d (some g.term) false] ∧
       delivered (model g ops).1 ++ d = g.data := by
-  have h := run_sim (g := g) ops g.req (sim_init g hok)
+  have h := run_init g hok ops
   have hd := specGo_delivered ops (runOps g.req ops).1 { rest := g.sData } hnc rfl h.1
   have hdata : g.sData = g.data := by simp [Scenario.sData, hsrc]
   have hterm : g.sTerm = g.term := by simp [Scenario.sTerm, hsrc]
@@ -163,8 +170,8 @@ example : okRuns sample.sched = true ∧ sample.kind = .src ∧ 0 < 3 := by deci
 underlying stream is closed once if there is a `Close`, and not at all otherwise. -/
 theorem close_once (g : Scenario) (hok : okRuns g.sched = true) (hsrc : g.kind = .src)
     (hcl : ¬ 0 < g.cl) (hh : g.hdr = []) (ops : List Op) :
-    (model g (.hasBody :: ops)).2 = if ops.contains .close then 1 else 0 := by
-  have h := run_sim (g := g) (.hasBody :: ops) g.req (sim_init g hok)
+    (model g (.hasBody :: ops)).2.1 = if ops.contains .close then 1 else 0 := by
+  have h := run_init g hok (.hasBody :: ops)
   have hc := sim_closes _ h.2
   show reportedCloses g (runOps g.req (.hasBody :: ops)).2 = _
   simp only [specCloses, hsrc, bne_self_eq_false, Bool.false_or, beq_iff_eq] at hc
@@ -191,6 +198,194 @@ example : ∃ g : Scenario, okRuns g.sched = true ∧ g.kind = .src ∧ ¬ 0 < g
   ⟨{ kind := .src, data := [7, 8], term := .eof, together := false, sched := [1, 0, 1],
      cerr := some (.user 3), cl := -1, hdr := [] }, by decide⟩
 
+/-! ## The body after asking is the library's
+
+Every history that contains a probe is `ops1 ++ HasBody :: ops2` with `ops1` free of probes; what
+happens in `ops1` is between the caller and its own stream. -/
+
+/-- On requests as net/http produces them, "no `Content-Length` header and `ContentLength ≤ 0`" is
+the text's "no length being declared". -/
+theorem undeclared_iff (g : Scenario) (hwf : lenWF g = true) :
+    undeclared g = true ↔ declared g = none := by
+  obtain ⟨d1, d2, d3⟩ := declared_of_fast hwf
+  unfold undeclared
+  constructor
+  · intro h
+    simp only [Bool.and_eq_true, Bool.not_eq_true', decide_eq_false_iff_not] at h
+    exact d3 h.2 h.1
+  · intro h
+    by_cases hc : 0 < g.cl
+    · obtain ⟨n, hn, _⟩ := d1 hc; rw [hn] at h; cases h
+    · cases hh : g.hdr.isEmpty with
+      | true => simp [hc]
+      | false => obtain ⟨n, hn, _⟩ := d2 hc hh; rw [hn] at h; cases h
+
+/-- "Closing the body closes the underlying stream exactly once", for the body as it is after
+asking: whatever the caller did to its own stream before the first probe (`ops1`), all the `Close`
+calls that follow the probe — with any reads, drains and further probes in between — close the
+underlying stream once if there is one, and not at all otherwise. -/
+theorem after_probe_closes_once (g : Scenario) (hok : okRuns g.sched = true) (hsrc : g.kind = .src)
+    (hu : undeclared g = true) (ops1 ops2 : List Op) (h1 : ∀ op ∈ ops1, op ≠ .hasBody) :
+    (model g (ops1 ++ .hasBody :: ops2)).2.1 =
+      ops1.count .close + (if ops2.contains .close then 1 else 0) := by
+  have h := run_init g hok (ops1 ++ .hasBody :: ops2)
+  have hc := sim_closes _ h.2
+  simp only [specCloses, hsrc, bne_self_eq_false, Bool.false_or, beq_iff_eq] at hc
+  show reportedCloses g (runOps g.req (ops1 ++ .hasBody :: ops2)).2 = _
+  rw [hc, runOps_append, specGo_append _ _ _ _ _ (runOps_length _ _).symm, runOps_cons, specGo_cons]
+  obtain ⟨b0, hb0, hd0, hk0⟩ := req_body_src hsrc
+  obtain ⟨_, hdir, hlib⟩ := run_unwrapped (g := g) ops1 g.req { rest := g.sData } b0 hb0 hd0 hk0 h1
+  obtain ⟨b2, hb2, hd2⟩ := probe_wraps _ (run_init g hok ops1).2 (takesOver_of hsrc hu)
+  have hw := run_wrapped (g := g) ops2 _
+    (specStep g (specGo g { rest := g.sData } ops1 (runOps g.req ops1).1).2 .hasBody
+      (step (runOps g.req ops1).2 .hasBody).1).2 b2 hb2 hd2
+  have ha := specStep_acct_other (g := g) (specGo g { rest := g.sData } ops1 (runOps g.req ops1).1).2
+    .hasBody (step (runOps g.req ops1).2 .hasBody).1 (by intro h; cases h)
+  show (specGo g _ ops2 _).2.directs + (if (specGo g _ ops2 _).2.lib = true then 1 else 0) = _
+  rw [hw.1, hw.2, ha.1, ha.2, hdir, hlib]
+  simp
+
+example : ∃ (g : Scenario) (ops1 : List Op), okRuns g.sched = true ∧ g.kind = .src ∧
+    undeclared g = true ∧ (∀ op ∈ ops1, op ≠ .hasBody) ∧ ops1 = [.read 1, .close, .read 2] :=
+  ⟨{ kind := .src, data := [], term := .eof, together := false, sched := [0, 0], cerr := none,
+     cl := -1, hdr := [] }, _, by decide, rfl, by decide, by decide, rfl⟩
+
+/-- The instance the text is about — an empty body, probed, closed twice, read: one close of the
+underlying stream, and the read is answered without asking the stream. -/
+theorem empty_body_probe_close_close_read :
+    model { kind := .src, data := [], term := .eof, together := false, sched := [], cerr := none,
+            cl := 0, hdr := [] } [.hasBody, .close, .close, .read 8] =
+      ([.has false, .cl none false, .cl (some .already) false, .rd [] (some .ueof)], 1, 0) := by
+  decide
+
+/-- The same for a probe at ANY position of a history (earlier probes and closes included): the
+`Close` calls that follow it close the underlying stream at most once more, and not at all when
+there is none. -/
+theorem after_any_probe_at_most_once (g : Scenario) (hok : okRuns g.sched = true)
+    (hsrc : g.kind = .src) (hu : undeclared g = true) (ops1 ops2 : List Op) :
+    (model g (ops1 ++ [.hasBody])).2.1 ≤ (model g (ops1 ++ .hasBody :: ops2)).2.1 ∧
+    (model g (ops1 ++ .hasBody :: ops2)).2.1 ≤ (model g (ops1 ++ [.hasBody])).2.1 + 1 ∧
+    (ops2.contains .close = false →
+      (model g (ops1 ++ .hasBody :: ops2)).2.1 = (model g (ops1 ++ [.hasBody])).2.1) := by
+  have hassoc : ops1 ++ Op.hasBody :: ops2 = (ops1 ++ [.hasBody]) ++ ops2 := by simp
+  have hm := run_init g hok (ops1 ++ [.hasBody])
+  have hf := run_init g hok ((ops1 ++ [.hasBody]) ++ ops2)
+  have cm := sim_closes _ hm.2
+  have cf := sim_closes _ hf.2
+  simp only [specCloses, hsrc, bne_self_eq_false, Bool.false_or, beq_iff_eq] at cm cf
+  rw [hassoc]
+  show reportedCloses g (runOps g.req (ops1 ++ [.hasBody])).2 ≤
+      reportedCloses g (runOps g.req ((ops1 ++ [.hasBody]) ++ ops2)).2 ∧
+    reportedCloses g (runOps g.req ((ops1 ++ [.hasBody]) ++ ops2)).2 ≤
+      reportedCloses g (runOps g.req (ops1 ++ [.hasBody])).2 + 1 ∧
+    (ops2.contains .close = false → reportedCloses g (runOps g.req ((ops1 ++ [.hasBody]) ++ ops2)).2 =
+      reportedCloses g (runOps g.req (ops1 ++ [.hasBody])).2)
+  rw [cm, cf, runOps_append g.req (ops1 ++ [Op.hasBody]) ops2,
+    specGo_append _ _ _ _ _ (runOps_length _ _).symm]
+  -- the body after the probe is a peeking layer
+  have hwr : ∃ b, (runOps g.req (ops1 ++ [.hasBody])).2.body = some b ∧ 1 ≤ b.depth := by
+    rw [runOps_append]
+    exact probe_wraps _ (run_init g hok ops1).2 (takesOver_of hsrc hu)
+  obtain ⟨b, hb, hd⟩ := hwr
+  have hw := run_wrapped (g := g) ops2 (runOps g.req (ops1 ++ [.hasBody])).2
+    (specGo g { rest := g.sData } (ops1 ++ [.hasBody]) (runOps g.req (ops1 ++ [.hasBody])).1).2 b hb hd
+  show _ ≤ (specGo g _ ops2 _).2.directs + (if (specGo g _ ops2 _).2.lib = true then 1 else 0) ∧
+    (specGo g _ ops2 _).2.directs + (if (specGo g _ ops2 _).2.lib = true then 1 else 0) ≤ _ ∧
+    (_ → (specGo g _ ops2 _).2.directs + (if (specGo g _ ops2 _).2.lib = true then 1 else 0) = _)
+  rw [hw.1, hw.2]
+  generalize (specGo g { rest := g.sData } (ops1 ++ [.hasBody]) (runOps g.req (ops1 ++ [.hasBody])).1).2 = t
+  cases t.lib <;> cases ops2.contains .close <;> simp
+
+example : okRuns sample.sched = true ∧ sample.kind = .src ∧ undeclared sample = true := by decide
+
+/-- After a probe took the body over, no `Close` of the history lands directly on the caller's
+stream: every one goes through the library's body (any request kind with a body, any position of
+the probe). -/
+theorem after_probe_no_direct_close (g : Scenario) (hok : okRuns g.sched = true)
+    (hu : takesOver g = true) (ops1 ops2 : List Op) :
+    ∃ outs2, (model g (ops1 ++ .hasBody :: ops2)).1 = (model g (ops1 ++ [.hasBody])).1 ++ outs2 ∧
+      outs2.length = ops2.length ∧ ∀ e, Out.cl e true ∉ outs2 := by
+  have hassoc : ops1 ++ Op.hasBody :: ops2 = (ops1 ++ [.hasBody]) ++ ops2 := by simp
+  rw [hassoc]
+  show ∃ outs2, (runOps g.req ((ops1 ++ [.hasBody]) ++ ops2)).1 =
+    (runOps g.req (ops1 ++ [.hasBody])).1 ++ outs2 ∧ _
+  rw [runOps_append g.req (ops1 ++ [Op.hasBody]) ops2]
+  have hwr : ∃ b, (runOps g.req (ops1 ++ [.hasBody])).2.body = some b ∧ 1 ≤ b.depth := by
+    rw [runOps_append]
+    exact probe_wraps _ (run_init g hok ops1).2 hu
+  obtain ⟨b, hb, hd⟩ := hwr
+  exact ⟨_, rfl, runOps_length _ _, run_wrapped_outs ops2 _ b hb hd⟩
+
+example : ∃ g : Scenario, okRuns g.sched = true ∧ takesOver g = true ∧ g.kind = .nobody :=
+  ⟨{ kind := .nobody, data := [], term := .eof, together := false, sched := [], cerr := none,
+     cl := 0, hdr := [] }, by decide⟩
+
+/-- "Reads after close … rather than returning stale data", at the underlying stream: when every
+`Close` of a history comes after a probe, no `Read` ever reaches the underlying stream after it
+was closed — the library's body answers them itself. -/
+theorem no_read_reaches_closed_stream (g : Scenario) (hok : okRuns g.sched = true)
+    (hsrc : g.kind = .src) (hu : undeclared g = true) (ops1 ops2 : List Op)
+    (h1 : ∀ op ∈ ops1, op ≠ .close) :
+    (model g (ops1 ++ .hasBody :: ops2)).2.2 = 0 := by
+  have h := run_init g hok (ops1 ++ .hasBody :: ops2)
+  have hl := sim_late _ h.2
+  simp only [specLate, hsrc, bne_self_eq_false, Bool.false_or, Bool.or_eq_true, bne_iff_ne, ne_eq,
+    beq_iff_eq] at hl
+  show reportedLate g (runOps g.req (ops1 ++ .hasBody :: ops2)).2 = 0
+  rcases hl with hl | hl
+  · exfalso; apply hl
+    rw [runOps_append, specGo_append _ _ _ _ _ (runOps_length _ _).symm, runOps_cons, specGo_cons]
+    obtain ⟨b2, hb2, hd2⟩ := probe_wraps _ (run_init g hok ops1).2 (takesOver_of hsrc hu)
+    have hw := run_wrapped (g := g) ops2 _
+      (specStep g (specGo g { rest := g.sData } ops1 (runOps g.req ops1).1).2 .hasBody
+        (step (runOps g.req ops1).2 .hasBody).1).2 b2 hb2 hd2
+    have ha := specStep_acct_other (g := g) (specGo g { rest := g.sData } ops1 (runOps g.req ops1).1).2
+      .hasBody (step (runOps g.req ops1).2 .hasBody).1 (by intro h; cases h)
+    have hn := specGo_noclose (g := g) ops1 (runOps g.req ops1).1 { rest := g.sData } h1
+    show (specGo g _ ops2 _).2.directs = 0
+    rw [hw.1, ha.1, hn.1]
+  · exact hl
+
+example : ∃ (g : Scenario) (ops1 : List Op), okRuns g.sched = true ∧ g.kind = .src ∧
+    undeclared g = true ∧ (∀ op ∈ ops1, op ≠ .close) ∧ ops1 = [.read 1, .hasBody, .drain 2] :=
+  ⟨{ kind := .src, data := [9], term := .user 2, together := true, sched := [0], cerr := some (.user 1),
+     cl := 0, hdr := [] }, _, by decide, rfl, by decide, by decide, rfl⟩
+
+/-! ## The Spec is not satisfied by leaving the caller's stream in place
+
+What a `HasBody` that installs its wrapper only when the probe finds content does on an empty body
+(`h,c,c` and `h,c,r8`: the request still holds the caller's stream). -/
+
+def emptySrc : Scenario :=
+  { kind := .src, data := [], term := .eof, together := false, sched := [], cerr := none, cl := 0, hdr := [] }
+
+/-- Two closes reported as direct after the probe, the underlying stream closed twice: rejected. -/
+theorem spec_rejects_unwrapped_double_close :
+    specTrace emptySrc [.hasBody, .close, .close]
+      [.has false, .cl none true, .cl none true] 2 0 = false := by decide
+
+/-- Already the first direct close after the probe is rejected, whatever the counters say. -/
+theorem spec_rejects_direct_close_after_probe :
+    specTrace emptySrc [.hasBody, .close] [.has false, .cl none true] 1 0 = false := by decide
+
+/-- Two closes through a body that forwards both to the underlying stream: rejected by the count. -/
+theorem spec_rejects_forwarded_double_close :
+    specTrace emptySrc [.hasBody, .close, .close]
+      [.has false, .cl none false, .cl none false] 2 0 = false := by decide
+
+/-- A read after close that fails, but only because it reached the closed underlying stream:
+rejected by the late-read counter (and accepted when the library answers it itself). -/
+theorem spec_rejects_read_reaching_closed_stream :
+    specTrace emptySrc [.hasBody, .close, .read 8]
+      [.has false, .cl none false, .rd [] (some .srcClosed)] 1 1 = false ∧
+    specTrace emptySrc [.hasBody, .close, .read 8]
+      [.has false, .cl none false, .rd [] (some .ueof)] 1 0 = true := by decide
+
+/-- A direct close BEFORE any probe stays the caller's own, and is accepted as before. -/
+theorem spec_accepts_direct_close_before_probe :
+    specTrace emptySrc [.close, .hasBody, .close]
+      [.cl none true, .has false, .cl none false] 2 1 = true := by decide
+
 /-- "Reads after close fail rather than returning stale data": after a `Close` anywhere in a
 history, and whatever happens in between (further probes included), a `Read` returns no data, and
 an error when its buffer is not empty. -/
@@ -204,12 +399,12 @@ theorem read_after_close (g : Scenario) (hok : okRuns g.sched = true) (hsrc : g.
     (runOps g.req (ops1 ++ Op.close :: ops2)).1 ++ [.rd [] e] ∧ _
   rw [runOps_append]
   -- the tracker is closed at the end of `ops1 ++ close :: ops2`
-  have h := run_sim (g := g) (ops1 ++ Op.close :: ops2) g.req (sim_init g hok)
+  have h := run_init g hok (ops1 ++ Op.close :: ops2)
   have hclosed : (specGo g { rest := g.sData } (ops1 ++ Op.close :: ops2)
       (runOps g.req (ops1 ++ Op.close :: ops2)).1).2.closed = true := by
     rw [runOps_append, specGo_append _ _ _ _ _ (runOps_length _ _).symm, runOps_cons, specGo_cons]
     apply specGo_closed
-    have h1 := (run_sim (g := g) ops1 g.req (sim_init g hok)).2
+    have h1 := (run_init g hok ops1).2
     generalize (specGo g { rest := g.sData } ops1 (runOps g.req ops1).1).2 = t1 at h1 ⊢
     generalize (runOps g.req ops1).2 = r1 at h1 ⊢
     obtain ⟨_, _, _, hb⟩ := h1
@@ -241,7 +436,7 @@ theorem nil_body_probe_then_close :
     model { kind := .nilpr, data := [], term := .eof, together := false, sched := [], cerr := none,
             cl := 0, hdr := [] } [.hasBody, .close, .read 5, .close, .hasBody, .close, .close] =
       ([.has false, .cl none false, .rd [] (some .eof), .cl none false, .has false,
-        .cl none false, .cl (some .already) false], 0) := by
+        .cl none false, .cl (some .already) false], 0, 0) := by
   decide
 
 end RtVerif.C17
